@@ -283,6 +283,7 @@ def gen_unit(unit: dict):
         for i, j in itertools.product(range(len(pats)), repeat=2):
             p, q = pats[i], pats[j]
             if (i + j) % unit.get("parts", 1) != unit.get("part", 0): continue
+            if th and (i * 3 + j) % max(1, (len(pats) ** 2) // 3000): continue     # thorough: <= ~3000 ordered pairs per shape
             if not compatible(p, q): continue
             mp_, mq_ = backed_mask(p), backed_mask(q)
             both, tonly, uonly = mp_ & mq_, mp_ & ~mq_, mq_ & ~mp_
@@ -505,7 +506,7 @@ def make_units(ctx: Ctx) -> List[dict]:
     shapes = all_shapes(6, 2) + [(1, 2, 2), (2, 1, 2), (2, 2, 1), (1, 2, 3), (2, 1, 3), (1, 1, 2)] if not th else all_shapes(6, 3)
     shapes = list(shapes) + [(0,), (0, 2)]
     for s in shapes:
-        parts = 4 if len(patterns_for_shape(s, ctx.tier)) > 24 else 1
+        parts = (4 if not th else 8) if len(patterns_for_shape(s, ctx.tier)) > 24 else 1
         for part in range(parts):
             U.append({"kind": "pairs", "shape": list(s), "part": part, "parts": parts})
         U.append({"kind": "repr", "shape": list(s)})
